@@ -551,6 +551,38 @@ func c04(x *mon.Ctx) {
 		}
 		x.Require("level-shape/"+sh, 0, 12, 18) // acceptable only through the well-formed UpToDate second level (refusing the whole document is allowed too)
 	}
+	// ---- a PCK certificate whose SVNs are NEGATIVE DER integers (02 01 C8 is -56, not 200; 02 02 FF 38 is -200): such a
+	//      platform meets no level — the certificate is malformed — whatever the levels ask for
+	{
+		n := 0
+		for k, enc := range [][]byte{{0x02, 0x01, 0xC8}, {0x02, 0x01, 0xFF}, {0x02, 0x01, 0x80}, {0x02, 0x02, 0xFF, 0x38}} {
+			for _, where := range []int{0, 7, 15, 16} { // a CPU SVN component, or (16) the PCE SVN
+				r := x.Rand(fmt.Sprint("negative-svn", k, where))
+				p := world.RandPlatform(r)
+				for i := range p.Comp {
+					p.Comp[i] = 10
+				}
+				p.PceSvn, p.TeeTcb[1] = 10, 0
+				ext := func(p *world.Platform) []byte {
+					tcb := world.SgxTcbElems(p)
+					if where < 16 {
+						tcb[where] = world.Seq(world.OID(2, where+1), enc)
+					} else {
+						tcb[16] = world.Seq(world.OID(2, 17), enc)
+					}
+					return world.Seq(world.SgxTopElems(p, tcb)...)
+				}
+				w := world.Honest(r, world.HonestOpts{Shape: world.QuoteShape{AuthLen: 32}, Platform: p, SgxExt: ext})
+				for _, lv := range []int{world.LBase, world.LColl} {
+					c := w.Case(lv, "pck-svn-negative-integer", fmt.Sprintf("enc=%x/at=%d/%s", enc, where, lvlName(lv)))
+					c.Expect, c.ShadowSkip = "reject", true
+					check(x, n, c)
+					n++
+				}
+			}
+		}
+		x.Require("pck-svn-negative-integer", 0, n, n)
+	}
 	// ---- many distinct platforms (PCK certificates), then the first ones again (see manyThenAgain): the SVNs a quote is judged
 	//      by are those of ITS certificate, however many other platforms the process has seen since
 	{
